@@ -310,7 +310,10 @@ def run_case(i, rng, tier):
             bad("histogram %s differs from filling the same tree directly from the columns: %s" % (f, C.fmt_diff(dd)), feature=f, specs=S.jsonable(_safe_spec(rspecs, f)))
         compared += 1
         # (2b) the same tree filled row by row (small frames; not where the C03 known finding about Sum and NaN applies)
-        if n <= 60 and not dd and "sum" not in repr(_safe_spec(rspecs, f)):
+        # (nor for mean / variance of a timestamp column: at 1.5e18 ns the rounding of the two summation orders is of the
+        # size of the variance itself - the tolerance scale of this check is built from the float columns)
+        ts_moment = f.split(":")[-1] == "t" and any(k_ in repr(_safe_spec(rspecs, f)) for k_ in ("deviate", "average"))
+        if n <= 60 and not dd and "sum" not in repr(_safe_spec(rspecs, f)) and not ts_moment:
             try:
                 d2 = _direct(hg, saved, f, rspecs, rdtype, rowwise=True)
             except Exception:  # noqa: BLE001
